@@ -103,6 +103,12 @@ _TOKEN_CONTRACT_TRUST = [
     'SymbolTable::{from, extend, is_disjoint}, PublicKeys::{extend, insert, insert_fallible}, BlockBuilder::build, proto_block_to_token_block, Block::print_source: assumed contracts on the real signatures (HashSet / iterator / fmt code)',
     'Vec::len() < usize::MAX for the block vectors (requires clauses named len): a Vec of non-zero-sized elements cannot reach usize::MAX elements',
 ]
+PROPS['C01']['units'].append({'template': 'token.rs', 'rlimit': 30, 'items': [
+    r'^token::Biscuit::(from|from_with_symbols|unsafe_deprecated_deserialize|from_serialized_container)$', r'^token::unverified::UnverifiedBiscuit::verify$'],
+    'quick_canaries': ['from-uses-legacy-mode']})
+PROPS['C01']['proved'] += (' Token level: Biscuit::from / from_with_symbols return Ok only for a container that is chain-valid under the key the provider designates for its root key id, with third-party signatures in the current '
+    '(non-legacy) scheme; unsafe_deprecated_deserialize is the only entry point that accepts the legacy scheme; UnverifiedBiscuit::verify returns a token whose container is chain-valid.')
+PROPS['C01']['assumptions'] = PROPS['C01']['assumptions'] + ['unit token: the container layer enters as contracts proved in unit chain; SymbolTable / PublicKeys primitives assumed (see C12)']
 PROPS['C02']['units'].append({'template': 'token.rs', 'rlimit': 30, 'items': [
     r'^token::Biscuit::(new_with_rng|new_with_key_pair|append_with_keypair|append_third_party_with_keypair|append|append_third_party|seal|to_vec|from_with_symbols)$',
     r'^token::unverified::UnverifiedBiscuit::(append_with_keypair|append_third_party_with_keypair|append|append_third_party|seal|to_vec|verify)$',
